@@ -294,6 +294,15 @@ def pattern_f(ctx, flavour, prog, shard_argv, module, cfg, rowvar="ROWS", tlc_ti
     bad, total, distinct = [], 0, 0
     for f, rc, err in crashed:
         # a sanitizer report / crash of the recorder on the real code is a finding of its own
+        with open(f, "rb+") as fx:              # cut a partial last line so that the shard stays well-formed NDJSON
+            fx.seek(0, 2); size = fx.tell(); back = min(size, 1 << 16)
+            fx.seek(size - back); tail = fx.read(back)
+            if tail and not tail.endswith(b"}\n"):
+                cut = tail.rfind(b"}\n")
+                fx.truncate(size - back + cut + 2 if cut >= 0 else size - back)
+        m = re.search(r"(ERROR: AddressSanitizer: [\w-]+|runtime error: [^\n]+)", err)
+        fr = [x for x in re.findall(r"#\d+ 0x[0-9a-f]+ in (\w+) ", err) if not x.startswith("__") and x != "main"][:3]
+        err = (m.group(1) if m else "recorder died") + " @ " + ">".join(fr) + " :: " + err[-300:]
         last = ""
         try:
             last = subprocess.run(["tail", "-n", "1", f], capture_output=True, text=True).stdout[:400]
